@@ -449,6 +449,16 @@ fn run_query(st: &mut St, a: &[&str]) -> R {
             Err(e) => Err(terr(&e)),
         },
         "to_newick" => tr(t.to_newick(), |s| enc_str(&s)),
+        "rt_newick" => match t.to_newick() {
+            Err(e) => Err(terr(&e)),
+            Ok(s) => match Tree::from_newick(&s) {
+                Err(e) => Err(format!("{} text {}", nerr(&e), enc_str(&s))),
+                Ok(t2) => match t2.to_newick() {
+                    Err(e) => Err(terr(&e)),
+                    Ok(s2) => Ok(format!("{} {} {}", enc_str(&s), dump(&t2), enc_str(&s2))),
+                },
+            },
+        },
         "to_fmt" => tr(t.to_formatted_newick(fmt_of(usz(a[1]))), |s| enc_str(&s)),
         "to_nexus" => tr(t.to_nexus(), |s| enc_str(&s)),
         "layout" => tr(phylotree::tree::draw::radial_layout(t), |mut l| {
